@@ -281,5 +281,9 @@ def check(run, replay=None):
             n = 5000
         one_case(run, seed, idx, f, b, n, mods)
     run.extra["classes_planned"] = len(set(plan))
+    from .. import sched_kernels
+    sched_kernels.attach(run, ["compute_gv", "compute_geometry", "compute_xlylzl"], 24 if run.tier == "quick" else 240,
+                         [[1, 0], [2, 1], [4, 1], [64, 1]], "cdiffraction")
     run.require_counter("values_compared", 1000)
     run.require_counter("thread_runs", 10)
+    run.require_counter("sched_determinism_comparisons", 20)
